@@ -344,6 +344,20 @@ func (fc *fileCtx) call(call *ast.CallExpr) {
 		return
 	}
 
+	// sync/atomic operations are yield points: a read-modify-write split into separate atomic
+	// operations can be interleaved (in race mode the detector's wrapper yields instead)
+	if sel, ok := call.Fun.(*ast.SelectorExpr); ok && !race && len(call.Args) > 0 {
+		if id, ok := sel.X.(*ast.Ident); ok {
+			if pn, ok := info.Uses[id].(*types.PkgName); ok && pn.Imported().Path() == "sync/atomic" {
+				fc.insert(call.Args[0].Pos(), "zzverifsim.AtomicYield(", -5)
+				fc.insert(call.Args[0].End(), ")", -5)
+				stats["atomic.yield"]++
+
+				return
+			}
+		}
+	}
+
 	// time.Sleep(d): the task must announce that it blocks on the simulated clock
 	if sel, ok := call.Fun.(*ast.SelectorExpr); ok {
 		if id, ok := sel.X.(*ast.Ident); ok {
